@@ -5,6 +5,7 @@ import (
 	"go/ast"
 	"go/token"
 	"go/types"
+	"sort"
 	"strings"
 
 	"golang.org/x/tools/go/packages"
@@ -60,6 +61,83 @@ type writerInfo struct {
 	methods  []*ast.FuncDecl
 	fwVar    *types.Var // local wrapper variable in WriteTo
 	problems []string
+	// the wrapper-less design: the count and the latched error live in WriteTo's named
+	// results and the writing is done by local closures over them and the writer parameter
+	closure *closureDesign
+}
+
+type closureDesign struct {
+	nVar, errVar *types.Var
+	lits         map[types.Object]*ast.FuncLit // local variable → the closure it holds
+	names        map[*ast.FuncLit]string
+	writers      map[*ast.FuncLit]bool // closures that write to the writer parameter
+	recorders    map[*ast.FuncLit]bool // closures that assign the count / the error
+}
+
+// closureDesignOf recognises the wrapper-less design in WriteTo (see closureDesign).
+func (c *Ctx) closureDesignOf(wi *writerInfo) *closureDesign {
+	info := wi.p.TypesInfo
+	fd := wi.writeTo
+	if fd.Type.Results == nil {
+		return nil
+	}
+	cd := &closureDesign{lits: map[types.Object]*ast.FuncLit{}, names: map[*ast.FuncLit]string{}, writers: map[*ast.FuncLit]bool{}, recorders: map[*ast.FuncLit]bool{}}
+	for _, fl := range fd.Type.Results.List {
+		for _, nm := range fl.Names {
+			v, ok := info.Defs[nm].(*types.Var)
+			if !ok {
+				continue
+			}
+			if isErrorType(v.Type()) {
+				cd.errVar = v
+			} else if b, ok := v.Type().Underlying().(*types.Basic); ok && b.Info()&types.IsInteger != 0 {
+				cd.nVar = v
+			}
+		}
+	}
+	if cd.nVar == nil || cd.errVar == nil {
+		return nil
+	}
+	ast.Inspect(fd.Body, func(n ast.Node) bool {
+		as, ok := n.(*ast.AssignStmt)
+		if !ok || len(as.Lhs) != 1 || len(as.Rhs) != 1 {
+			return true
+		}
+		fl, ok := as.Rhs[0].(*ast.FuncLit)
+		if !ok {
+			return true
+		}
+		if id, ok := as.Lhs[0].(*ast.Ident); ok {
+			cd.lits[info.ObjectOf(id)] = fl
+			cd.names[fl] = id.Name
+		}
+		return true
+	})
+	for _, fl := range cd.lits {
+		ast.Inspect(fl.Body, func(n ast.Node) bool {
+			switch x := n.(type) {
+			case *ast.FuncLit:
+				return x == fl
+			case *ast.CallExpr:
+				if dst := isWriteCall(info, x); dst != nil {
+					if id, ok := unparen(dst).(*ast.Ident); ok && info.ObjectOf(id) == wi.wParam {
+						cd.writers[fl] = true
+					}
+				}
+			case *ast.AssignStmt:
+				for _, l := range x.Lhs {
+					if id, ok := unparen(l).(*ast.Ident); ok && (info.ObjectOf(id) == cd.nVar || info.ObjectOf(id) == cd.errVar) {
+						cd.recorders[fl] = true
+					}
+				}
+			}
+			return true
+		})
+	}
+	if len(cd.writers) == 0 {
+		return nil
+	}
+	return cd
 }
 
 func isIOWriter(t types.Type) bool {
@@ -134,7 +212,11 @@ func (c *Ctx) writerAnchors() *writerInfo {
 		}
 	}
 	if wi.wrapper == nil {
-		wi.problems = append(wi.problems, "no {io.Writer, count, error} wrapper struct in package ir")
+		if cd := c.closureDesignOf(wi); cd != nil {
+			wi.closure = cd
+			return wi
+		}
+		wi.problems = append(wi.problems, "no {io.Writer, count, error} wrapper struct in package ir, and WriteTo does not keep the count and the error in named results written by local closures")
 		return wi
 	}
 	_ = info
@@ -267,6 +349,9 @@ func ruleW1(c *Ctx) []Obligation {
 	if len(wi.problems) > 0 {
 		return wi.undecided("W-1")
 	}
+	if wi.closure != nil {
+		return c.writerClosureRule(wi, "W-1")
+	}
 	var obs []Obligation
 	info := wi.p.TypesInfo
 	// (a) uses of the parameter in WriteTo
@@ -353,6 +438,9 @@ func ruleW2(c *Ctx) []Obligation {
 	wi := c.writerAnchors()
 	if len(wi.problems) > 0 {
 		return wi.undecided("W-2")
+	}
+	if wi.closure != nil {
+		return c.writerClosureRule(wi, "W-2")
 	}
 	info := wi.p.TypesInfo
 	var obs []Obligation
@@ -632,6 +720,9 @@ func ruleW3(c *Ctx) []Obligation {
 	if len(wi.problems) > 0 {
 		return wi.undecided("W-3")
 	}
+	if wi.closure != nil {
+		return c.writerClosureRule(wi, "W-3")
+	}
 	info := wi.p.TypesInfo
 	var obs []Obligation
 	isFwField := func(e ast.Expr, f *types.Var) bool {
@@ -697,6 +788,9 @@ func ruleW4(c *Ctx) []Obligation {
 	wi := c.writerAnchors()
 	if len(wi.problems) > 0 {
 		return wi.undecided("W-4")
+	}
+	if wi.closure != nil {
+		return c.writerClosureRule(wi, "W-4")
 	}
 	var obs []Obligation
 	type acc struct{ writes, reads []string }
@@ -904,4 +998,283 @@ func (c *Ctx) returnsSizeErr(wi *writerInfo, m *types.Func) bool {
 		return ok && info.ObjectOf(se.Sel) == f
 	}
 	return isF(r.Results[0], wi.fSize) && isF(r.Results[1], wi.fErr)
+}
+
+// writerClosureRule: W-1 … W-4 for the wrapper-less design (closureDesign). Same clauses,
+// stated over the named results and the local closures instead of the wrapper's fields and
+// methods.
+func (c *Ctx) writerClosureRule(wi *writerInfo, rule string) []Obligation {
+	cd := wi.closure
+	info := wi.p.TypesInfo
+	fd := wi.writeTo
+	pm := buildParents(fd.Body)
+	enclosingLit := func(n ast.Node) *ast.FuncLit {
+		for q := pm[n]; q != nil; q = pm[q] {
+			if fl, ok := q.(*ast.FuncLit); ok {
+				return fl
+			}
+		}
+		return nil
+	}
+	var obs []Obligation
+	switch rule {
+	case "W-1":
+		uses, bad := 0, []string{}
+		ast.Inspect(fd.Body, func(n ast.Node) bool {
+			id, ok := n.(*ast.Ident)
+			if !ok || info.Uses[id] != wi.wParam {
+				return true
+			}
+			uses++
+			okUse := false
+			if call, ok := pm[id].(*ast.CallExpr); ok {
+				if dst := isWriteCall(info, call); dst != nil && unparen(dst) == ast.Expr(id) && enclosingLit(call) != nil {
+					okUse = true
+				}
+			}
+			if se, ok := pm[id].(*ast.SelectorExpr); ok && se.X == ast.Expr(id) {
+				if call, ok := pm[se].(*ast.CallExpr); ok && isWriteCall(info, call) != nil && enclosingLit(call) != nil {
+					okUse = true
+				}
+			}
+			if !okUse {
+				bad = append(bad, c.pos(id.Pos()))
+			}
+			return true
+		})
+		o := Obligation{Key: "ir.(*Module).WriteTo writer parameter", Pos: c.pos(fd.Pos()), Verdict: OK, Detail: fmt.Sprintf("%d use(s), all as the destination of a write inside a local closure", uses)}
+		if len(bad) > 0 || uses == 0 {
+			o.Verdict = VIOL
+			o.Detail = fmt.Sprintf("writer parameter used other than as the destination of a write inside a writing closure at %v: output can bypass the byte count and the error latch", bad)
+		}
+		obs = append(obs, o)
+		for _, path := range []string{pkgIR, pkgCONS, pkgMD, pkgTYP, pkgVAL, pkgENUM} {
+			c.eachFunc(path, func(p *packages.Package, ofd *ast.FuncDecl, obj *types.Func) {
+				idx := 0
+				ast.Inspect(ofd.Body, func(nd ast.Node) bool {
+					call, ok := nd.(*ast.CallExpr)
+					if !ok {
+						return true
+					}
+					dst := isWriteCall(p.TypesInfo, call)
+					if dst == nil {
+						return true
+					}
+					if t := p.TypesInfo.TypeOf(dst); t == nil || !types.IsInterface(t) {
+						return true
+					}
+					idx++
+					o := Obligation{Key: fmt.Sprintf("write to interface-typed writer in %s #%d", funcKey(obj), idx), Pos: c.pos(call.Pos()), Verdict: OK, Detail: "a writing closure of WriteTo writes to the writer parameter"}
+					id, isID := unparen(dst).(*ast.Ident)
+					if ofd != fd || !isID || p.TypesInfo.ObjectOf(id) != wi.wParam {
+						o.Verdict = VIOL
+						o.Detail = fmt.Sprintf("%s writes to an io.Writer directly (%s); output written this way is neither counted nor stopped after the first error", funcKey(obj), exprString(call.Fun))
+					}
+					obs = append(obs, o)
+					return true
+				})
+			})
+		}
+	case "W-2":
+		// recorder: func(k int, e error) { n += T(k); err = e } — both unconditional
+		isRecorder := func(fl *ast.FuncLit) bool {
+			if fl == nil || fl.Type.Params == nil {
+				return false
+			}
+			var ps []types.Object
+			for _, f := range fl.Type.Params.List {
+				for _, nm := range f.Names {
+					ps = append(ps, info.Defs[nm])
+				}
+			}
+			if len(ps) != 2 {
+				return false
+			}
+			addN, setE := false, false
+			for _, st := range fl.Body.List {
+				as, ok := st.(*ast.AssignStmt)
+				if !ok || len(as.Lhs) != 1 || len(as.Rhs) != 1 {
+					continue
+				}
+				id, ok := unparen(as.Lhs[0]).(*ast.Ident)
+				if !ok {
+					continue
+				}
+				switch {
+				case info.ObjectOf(id) == cd.nVar && as.Tok == token.ADD_ASSIGN && usesOnly(info, as.Rhs[0], ps[0]):
+					addN = true
+				case info.ObjectOf(id) == cd.errVar && as.Tok == token.ASSIGN && usesOnly(info, as.Rhs[0], ps[1]):
+					setE = true
+				}
+			}
+			return addN && setE
+		}
+		n := 0
+		for _, fl := range sortedLits(cd) {
+			if !cd.writers[fl] {
+				continue
+			}
+			ast.Inspect(fl.Body, func(nd ast.Node) bool {
+				call, ok := nd.(*ast.CallExpr)
+				if !ok {
+					return true
+				}
+				dst := isWriteCall(info, call)
+				if dst == nil {
+					return true
+				}
+				if id, ok := unparen(dst).(*ast.Ident); !ok || info.ObjectOf(id) != wi.wParam {
+					return true
+				}
+				n++
+				o := Obligation{Key: fmt.Sprintf("writing closure %s #%d", cd.names[fl], n), Pos: c.pos(call.Pos()), Verdict: OK}
+				// (1) behind the latch: an enclosing `if err == nil`, or an earlier top-level `if err != nil { return }`
+				latched := false
+				for q := pm[call]; q != nil && q != ast.Node(fl); q = pm[q] {
+					if is, ok := q.(*ast.IfStmt); ok && call.Pos() >= is.Body.Pos() && call.End() <= is.Body.End() {
+						if be, ok := unparen(is.Cond).(*ast.BinaryExpr); ok && be.Op == token.EQL && exprString(be.Y) == "nil" {
+							if id, ok := unparen(be.X).(*ast.Ident); ok && info.ObjectOf(id) == cd.errVar {
+								latched = true
+							}
+						}
+					}
+				}
+				for _, st := range fl.Body.List {
+					if st.Pos() > call.Pos() {
+						break
+					}
+					if is, ok := st.(*ast.IfStmt); ok && is.Else == nil && len(is.Body.List) == 1 {
+						if _, isRet := is.Body.List[0].(*ast.ReturnStmt); isRet {
+							if be, ok := unparen(is.Cond).(*ast.BinaryExpr); ok && be.Op == token.NEQ && exprString(be.Y) == "nil" {
+								if id, ok := unparen(be.X).(*ast.Ident); ok && info.ObjectOf(id) == cd.errVar {
+									latched = true
+								}
+							}
+						}
+					}
+				}
+				// (2) both results recorded
+				recorded := false
+				switch par := pm[call].(type) {
+				case *ast.CallExpr: // written(fmt.Fprintf(w, …))
+					if len(par.Args) == 1 {
+						if id, ok := unparen(par.Fun).(*ast.Ident); ok && isRecorder(cd.lits[info.ObjectOf(id)]) {
+							recorded = true
+						}
+					}
+				case *ast.AssignStmt: // k, e := fmt.Fprintf(w, …); n += int64(k); err = e
+					if len(par.Lhs) == 2 {
+						k, _ := par.Lhs[0].(*ast.Ident)
+						e, _ := par.Lhs[1].(*ast.Ident)
+						if blk, ok := pm[par].(*ast.BlockStmt); ok && k != nil && e != nil {
+							addN, setE := false, false
+							for _, st := range blk.List {
+								as, ok := st.(*ast.AssignStmt)
+								if !ok || st.Pos() < par.Pos() || len(as.Lhs) != 1 || len(as.Rhs) != 1 {
+									continue
+								}
+								id, ok := unparen(as.Lhs[0]).(*ast.Ident)
+								if !ok {
+									continue
+								}
+								switch {
+								case info.ObjectOf(id) == cd.nVar && as.Tok == token.ADD_ASSIGN && usesOnly(info, as.Rhs[0], info.ObjectOf(k)):
+									addN = true
+								case info.ObjectOf(id) == cd.errVar && as.Tok == token.ASSIGN && usesOnly(info, as.Rhs[0], info.ObjectOf(e)):
+									setE = true
+								}
+							}
+							recorded = addN && setE
+						}
+					}
+				}
+				switch {
+				case !latched:
+					o.Verdict, o.Detail = VIOL, "the write is not guarded by the latched error (no enclosing `if err == nil`, no earlier `if err != nil { return }`): after a failed write this closure still writes"
+				case !recorded:
+					o.Verdict, o.Detail = VIOL, "the results of the write are not both recorded unconditionally (count added to the named result, error stored): WriteTo under-reports n or loses the first error"
+				default:
+					o.Detail = "behind the error latch; count added and error stored unconditionally"
+				}
+				obs = append(obs, o)
+				return true
+			})
+		}
+	case "W-3":
+		o := Obligation{Key: "ir.(*Module).WriteTo returns", Pos: c.pos(fd.Pos()), Verdict: OK}
+		nret := 0
+		ast.Inspect(fd.Body, func(n ast.Node) bool {
+			if _, ok := n.(*ast.FuncLit); ok {
+				return false
+			}
+			r, ok := n.(*ast.ReturnStmt)
+			if !ok {
+				return true
+			}
+			nret++
+			good := len(r.Results) == 0
+			if len(r.Results) == 2 {
+				a, _ := unparen(r.Results[0]).(*ast.Ident)
+				b, _ := unparen(r.Results[1]).(*ast.Ident)
+				good = a != nil && b != nil && info.ObjectOf(a) == cd.nVar && info.ObjectOf(b) == cd.errVar
+			}
+			if !good && o.Verdict == OK {
+				o.Verdict, o.Pos = VIOL, c.pos(r.Pos())
+				o.Detail = "a return of WriteTo does not report the recorded byte count and first error (the named results)"
+			}
+			return true
+		})
+		if nret == 0 {
+			o.Verdict, o.Detail = VIOL, "WriteTo has no return statement"
+		} else if o.Verdict == OK {
+			o.Detail = fmt.Sprintf("%d return(s) of the named results %s, %s", nret, cd.nVar.Name(), cd.errVar.Name())
+		}
+		obs = append(obs, o)
+	case "W-4":
+		for _, v := range []*types.Var{cd.nVar, cd.errVar} {
+			o := Obligation{Key: fmt.Sprintf("WriteTo's %s is written only by the recording closures", v.Name()), Pos: c.pos(v.Pos()), Verdict: OK}
+			var bad []string
+			ast.Inspect(fd.Body, func(n ast.Node) bool {
+				var targets []ast.Expr
+				switch x := n.(type) {
+				case *ast.AssignStmt:
+					targets = x.Lhs
+				case *ast.IncDecStmt:
+					targets = []ast.Expr{x.X}
+				case *ast.UnaryExpr:
+					if x.Op == token.AND {
+						targets = []ast.Expr{x.X}
+					}
+				}
+				for _, t := range targets {
+					if id, ok := unparen(t).(*ast.Ident); ok && info.ObjectOf(id) == types.Object(v) {
+						fl := enclosingLit(id)
+						if fl == nil || !(cd.recorders[fl] && (cd.writers[fl] || len(fl.Type.Params.List) > 0)) {
+							bad = append(bad, c.pos(id.Pos()))
+						}
+					}
+				}
+				return true
+			})
+			if len(bad) > 0 {
+				o.Verdict = VIOL
+				o.Detail = "written outside the closures that record a write's results: " + strings.Join(bad, "; ")
+			} else {
+				o.Detail = "assigned only inside the recording closures"
+			}
+			obs = append(obs, o)
+		}
+		// the writer parameter is reached only inside the writing closures: W-1
+		obs = append(obs, Obligation{Key: "WriteTo's writer parameter is reached only inside the writing closures", Pos: c.pos(fd.Pos()), Verdict: OK, Detail: "decided by W-1"})
+	}
+	return obs
+}
+
+func sortedLits(cd *closureDesign) []*ast.FuncLit {
+	var out []*ast.FuncLit
+	for _, fl := range cd.lits {
+		out = append(out, fl)
+	}
+	sort.Slice(out, func(i, j int) bool { return out[i].Pos() < out[j].Pos() })
+	return out
 }
